@@ -67,14 +67,46 @@ func (l Location) GetPositions() ([]int, error) {
 
 // True/false this location is on the reverse strand
 func (l Location) IsReverse() (bool, error) {
-	pos, err := l.GetPositions()
+	_, err := l.GetPositions()
 	if err != nil {
 		return true, err
 	}
-	if pos[0] > pos[len(pos)-1] {
-		return true, nil
+	// the strand is given by the complement() operators of the location, not by its
+	// coordinates: join(31..42,7..15) (e.g. a feature that spans the origin of a circular
+	// genome) is on the forward strand although it ends at a smaller coordinate than it starts
+	strand, err := strandOf(l.Representation)
+	if err != nil {
+		return true, err
 	}
-	return false, nil
+	return strand < 0, nil
+}
+
+// strandOf returns 1 if every range of a location is read on the forward strand, -1 if every
+// range is read on the reverse strand (it is inside an odd number of complement() operators),
+// and an error if the location mixes strands
+func strandOf(s string) (int, error) {
+	for _, op := range []string{"complement(", "join("} {
+		if !strings.HasPrefix(s, op) || !strings.HasSuffix(s, ")") {
+			continue
+		}
+		inner := s[len(op) : len(s)-1]
+		strand := 0
+		for _, field := range splitOnOuterCommas(inner) {
+			st, err := strandOf(field)
+			if err != nil {
+				return 0, err
+			}
+			if strand != 0 && st != strand {
+				return 0, errors.New("Error parsing Genbank location: mixed strands within a single feature")
+			}
+			strand = st
+		}
+		if op == "complement(" {
+			strand = -strand
+		}
+		return strand, nil
+	}
+	return 1, nil
 }
 
 // // 5'-most position relative to the forward strand
